@@ -47,7 +47,9 @@ MANIFEST = dict(
          "code's signed overflow in size/time parsing is modelled as 64-bit wrap-around)")
 
 CWD = b"o/w"
-SAN_FLAGS = ("-fwrapv", "-fno-sanitize=signed-integer-overflow")
+# -ftrivial-auto-var-init=pattern: an automatic variable read before it is written holds 0xFE.. instead of whatever
+# the stack held (usually 0), so such a read shows (e.g. a pointer test `if (!p)` goes the other way)
+SAN_FLAGS = ("-fwrapv", "-fno-sanitize=signed-integer-overflow", "-ftrivial-auto-var-init=pattern")
 
 
 def read_const(name):
